@@ -230,6 +230,34 @@ func (c *codecCtx) propagate(body *ast.BlockStmt, src func(ast.Expr) (string, bo
 						changed = true
 					}
 				}
+			} else {
+				// a store into an element or member of a local container (m[k] = v, s.f = v,
+				// a[i] = v): the container now carries the value (weak update); the result
+				// may be built in a local and assigned to the receiver at the end
+				e := ast.Unparen(lhs)
+				for depth := 0; depth < 6; depth++ {
+					switch x := e.(type) {
+					case *ast.IndexExpr:
+						e = ast.Unparen(x.X)
+						continue
+					case *ast.SelectorExpr:
+						e = ast.Unparen(x.X)
+						continue
+					case *ast.StarExpr:
+						e = ast.Unparen(x.X)
+						continue
+					}
+					break
+				}
+				if id, ok := e.(*ast.Ident); ok {
+					if o := c.info.Uses[id]; o != nil {
+						if v, isVar := o.(*types.Var); isVar && o != c.recv && !v.IsField() {
+							if env.addAll(o, all) {
+								changed = true
+							}
+						}
+					}
+				}
 			}
 			if emit {
 				sink(lhs, all, pos)
@@ -851,6 +879,28 @@ func ruleK12(p *Program, r *Reporter) {
 			case len(e) == 0:
 				r.Ob(rule, fname, "member "+s, pr.enc.Pos(), false, true, fmt.Sprintf("decoder stores %q into %s but the encoder never emits that member from the receiver (value lost on encode)", s, setStr(d)))
 			case setStr(e) != setStr(d):
+				// the decoder may additionally fill fields that the encoder reads for no member
+				// at all: caches derived from this member (ColumnSchema.Type from "type")
+				onlyDerivedExtras := true
+				for f := range e {
+					if !d[f] {
+						onlyDerivedExtras = false
+					}
+				}
+				for f := range d {
+					if e[f] {
+						continue
+					}
+					for _, et := range eh.slots {
+						if et[f] {
+							onlyDerivedExtras = false
+						}
+					}
+				}
+				if onlyDerivedExtras {
+					r.Ob(rule, fname, "member "+s, pr.enc.Pos(), true, true, fmt.Sprintf("member %q: encoder reads %s, decoder stores %s; the extra fields are read by the encoder for no member (derived from this one)", s, setStr(e), setStr(d)))
+					break
+				}
 				r.Ob(rule, fname, "member "+s, pr.dec.Pos(), false, true, fmt.Sprintf("cross-wired: encoder fills %q from %s, decoder stores it into %s", s, setStr(e), setStr(d)))
 			default:
 				r.Ob(rule, fname, "member "+s, pr.dec.Pos(), true, true, fmt.Sprintf("%q <-> %s in both directions", s, setStr(e)))
